@@ -244,7 +244,7 @@ func runChild(self, outDir, bits string, sc []Scenario, envv map[string]string, 
 	os.RemoveAll(dir)
 	os.MkdirAll(dir, 0o700)
 	spec := ChildSpec{ID: bits, Seed: seed, Dir: dir, Scenarios: sc}
-	for attempt := 0; attempt < 8; attempt++ {
+	for attempt := 0; attempt < 12; attempt++ {
 		sp := filepath.Join(dir, fmt.Sprintf("spec-%d.json", attempt))
 		b, _ := json.Marshal(spec)
 		os.WriteFile(sp, b, 0o644)
@@ -305,7 +305,7 @@ func runChild(self, outDir, bits string, sc []Scenario, envv map[string]string, 
 		if inflight == "" {
 			// died between two calls (a background goroutine of the node panicked): nobody to blame, continue after the calls done
 			res.crashes = append(res.crashes, "(between calls)")
-			if len(recs) == 0 || attempt >= 5 {
+			if len(recs) == 0 || attempt >= 8 {
 				res.err = fmt.Sprintf("child %s died outside a call (%v); see %s", bits, werr, dir)
 				res.recs = recs
 				res.spec = spec
@@ -449,6 +449,24 @@ func digest(run *hx.Run, r *childResult) {
 				}
 				run.Count("late-mining-attributed")
 			}
+			onlySealed := true
+			if rec.Evidence != "" {
+				set := map[string]bool{}
+				for _, e := range strings.Split(rec.Evidence, "+") {
+					if e != "" {
+						set[e] = true
+					}
+				}
+				var toks []string
+				for e := range set {
+					toks = append(toks, e)
+					if e != "sealed" {
+						onlySealed = false
+					}
+				}
+				sort.Strings(toks)
+				rec.Evidence = strings.Join(toks, "+")
+			}
 			obs := "quiet"
 			if rec.Evidence != "" {
 				obs = "signed"
@@ -476,7 +494,7 @@ func digest(run *hx.Run, r *childResult) {
 			}
 			// a block seal is produced asynchronously (the miner signs, the block is inserted later): for it only the cumulative counter is
 			// meaningful; every other kind of evidence is part of this call's own result
-			if hook && rec.Evidence != "" && ((rec.Evidence == "sealed" && rec.Count == 0) || (rec.Evidence != "sealed" && rec.Delta == 0)) {
+			if hook && rec.Evidence != "" && ((onlySealed && rec.Count == 0) || (!onlySealed && rec.Delta == 0)) {
 				run.Violate("hook-miss", "hook-miss "+m, map[string]interface{}{"env": r.bits, "scenario": sc, "transport": rec.Tr, "method": m, "variant": rec.Variant, "args": rec.Args},
 					"a keystore signature was observed ("+rec.Evidence+") but the verif signing counter did not move: a signing path bypasses the hooked entry points")
 			}
